@@ -2,6 +2,7 @@ package simrt
 
 import (
 	"context"
+	"errors"
 	"io"
 	"net"
 	"os"
@@ -108,6 +109,7 @@ type Conn struct {
 
 	closed    bool
 	rst       bool
+	rdShut    bool // CloseRead was called
 	CloseStep int64
 	rdl, wdl  time.Time
 	rwait     *waiter
@@ -127,17 +129,18 @@ type Conn struct {
 
 // Listener is a simulated listening socket.
 type Listener struct {
-	w       *World
-	addr    *net.TCPAddr
-	closed  bool
-	qHead   *qent
-	qTail   *qent
-	QLen    int
-	errs    int
-	wait    *waiter
-	next    *Listener
-	Accepts int
-	Blocked int
+	w         *World
+	addr      *net.TCPAddr
+	closed    bool
+	qHead     *qent
+	qTail     *qent
+	QLen      int
+	errs      int
+	wait      *waiter
+	next      *Listener
+	Accepts   int
+	Blocked   int
+	reusePort bool // SO_REUSEPORT was set on the socket
 }
 
 type qent struct {
@@ -162,6 +165,20 @@ func Listen(network, address string) (net.Listener, error) {
 	if w == nil {
 		return net.Listen(network, address)
 	}
+	return listen(w, network, address, false)
+}
+
+// ListenReusePort is Listen for a socket that has SO_REUSEPORT set (the
+// harness uses it to hold a port the way another server process with that
+// option would).
+//
+//go:norace
+func ListenReusePort(network, address string) (net.Listener, error) {
+	return listen(cur, network, address, true)
+}
+
+//go:norace
+func listen(w *World, network, address string, reusePort bool) (net.Listener, error) {
 	host, port, err := net.SplitHostPort(address)
 	if err != nil {
 		return nil, &net.OpError{Op: "listen", Net: network, Err: err}
@@ -189,14 +206,16 @@ func Listen(network, address string) (net.Listener, error) {
 	}
 	addr := &net.TCPAddr{IP: ip, Port: pn}
 	for l := w.listeners; l != nil; l = l.next {
-		if !l.closed && l.addr.Port == pn && (l.addr.IP == nil || ip == nil || l.addr.IP.Equal(ip)) {
+		if !l.closed && l.addr.Port == pn && (l.addr.IP == nil || ip == nil || l.addr.IP.Equal(ip)) && !(l.reusePort && reusePort) {
+			// (Linux lets a second socket bind an address in use only if
+			// both sockets have SO_REUSEPORT set)
 			w.mu.Unlock()
 			raceEnable()
 			w.Emit("listen-fail", 0, 0, int64(pn), 0, address, nil)
 			return nil, &net.OpError{Op: "listen", Net: network, Addr: addr, Err: os.NewSyscallError("bind", syscall.EADDRINUSE)}
 		}
 	}
-	l := &Listener{w: w, addr: addr, next: w.listeners}
+	l := &Listener{w: w, addr: addr, next: w.listeners, reusePort: reusePort}
 	w.listeners = l
 	w.nListen++
 	w.mu.Unlock()
@@ -221,7 +240,50 @@ func ListenVia(lc interface{}, ctx interface{}, network, address string) (net.Li
 		}
 		return net.Listen(network, address)
 	}
-	return Listen(network, address)
+	reuse, err := reusePortOf(lc, network, address)
+	if err != nil {
+		return nil, &net.OpError{Op: "listen", Net: network, Err: err}
+	}
+	return listen(cur, network, address, reuse)
+}
+
+// probeRaw hands a ListenConfig's Control function a real, unbound socket, so
+// that the options it sets can be read back.
+type probeRaw struct{ fd int }
+
+func (p probeRaw) Control(f func(fd uintptr)) error { f(uintptr(p.fd)); return nil }
+func (p probeRaw) Read(func(fd uintptr) bool) error {
+	return errors.New("simrt: read on the probe socket of a ListenConfig.Control")
+}
+func (p probeRaw) Write(func(fd uintptr) bool) error {
+	return errors.New("simrt: write on the probe socket of a ListenConfig.Control")
+}
+
+// reusePortOf runs the Control function of a net.ListenConfig, if it has one,
+// on a throw-away socket and reports whether it set SO_REUSEPORT: the one
+// socket option that changes what the port table must answer. An error from
+// Control fails the Listen, as it does in package net.
+func reusePortOf(lc interface{}, network, address string) (bool, error) {
+	var ctl func(string, string, syscall.RawConn) error
+	switch v := lc.(type) {
+	case *net.ListenConfig:
+		ctl = v.Control
+	case net.ListenConfig:
+		ctl = v.Control
+	}
+	if ctl == nil {
+		return false, nil
+	}
+	fd, err := syscall.Socket(syscall.AF_INET, syscall.SOCK_STREAM, 0)
+	if err != nil {
+		return false, nil
+	}
+	defer syscall.Close(fd)
+	if err := ctl(network, address, probeRaw{fd}); err != nil {
+		return false, err
+	}
+	v, err := syscall.GetsockoptInt(fd, syscall.SOL_SOCKET, soReusePort)
+	return err == nil && v != 0, nil
 }
 
 // Addr implements net.Listener.
@@ -361,10 +423,24 @@ func (w *World) Dial(port int, passive bool) *Conn {
 	raceDisable()
 	w.mu.Lock()
 	var l *Listener
+	nl := 0
 	for x := w.listeners; x != nil; x = x.next {
 		if !x.closed && x.addr.Port == port {
-			l = x
-			break
+			nl++
+		}
+	}
+	if nl > 0 {
+		// several listeners share the port (SO_REUSEPORT): the kernel spreads
+		// new connections over them; here, in turn
+		k := w.nConns % nl
+		for x := w.listeners; x != nil; x = x.next {
+			if !x.closed && x.addr.Port == port {
+				if k == 0 {
+					l = x
+					break
+				}
+				k--
+			}
 		}
 	}
 	if l == nil {
@@ -476,7 +552,7 @@ func (c *Conn) Read(b []byte) (int, error) {
 				wakeAll(&c.Peer.wwait)
 			}
 		case len(b) == 0:
-		case c.in.finDelivered:
+		case c.in.finDelivered || c.rdShut:
 			err = io.EOF
 		default:
 			wt = addWaiter(&c.rwait)
@@ -612,6 +688,50 @@ func (c *Conn) CloseWrite() error {
 	raceEnable()
 	return nil
 }
+
+// CloseRead shuts down the reading side as shutdown(SHUT_RD) does on Linux:
+// what has already arrived can still be read, after that Read reports EOF
+// instead of waiting. (Conn stands in for *net.TCPConn in the scratch copy:
+// splice rule R8.)
+//
+//go:norace
+func (c *Conn) CloseRead() error {
+	w := c.w
+	raceDisable()
+	w.mu.Lock()
+	var err error
+	if c.closed {
+		err = c.opErr("close", net.ErrClosed)
+	}
+	c.rdShut = true
+	wakeAll(&c.rwait)
+	w.mu.Unlock()
+	raceEnable()
+	return err
+}
+
+// The socket options of *net.TCPConn have no effect in the model.
+
+//go:norace
+func (c *Conn) SetKeepAlive(bool) error { return nil }
+
+//go:norace
+func (c *Conn) SetKeepAlivePeriod(time.Duration) error { return nil }
+
+//go:norace
+func (c *Conn) SetKeepAliveConfig(net.KeepAliveConfig) error { return nil }
+
+//go:norace
+func (c *Conn) SetLinger(int) error { return nil }
+
+//go:norace
+func (c *Conn) SetNoDelay(bool) error { return nil }
+
+//go:norace
+func (c *Conn) SetReadBuffer(int) error { return nil }
+
+//go:norace
+func (c *Conn) SetWriteBuffer(int) error { return nil }
 
 // LocalAddr implements net.Conn.
 //
@@ -852,3 +972,7 @@ func (w *World) EachConn(f func(*Conn)) {
 		f(c)
 	}
 }
+
+// soReusePort is SO_REUSEPORT on Linux (package syscall does not export it
+// for every architecture).
+const soReusePort = 0xf
